@@ -212,6 +212,40 @@ def run(ck: Check):
                     ck.violation(f"diff_test: both runs time out after printing {oa!r} / {ob!r} ({'log files' if mode else 'in memory'}): "
                                  f"got {got}, documented meaning {oa != ob}",
                                  {"module": "diff_test", "timeout": "both", "stdout_a": oa, "stdout_b": ob, "files": mode is not None})
+        # outputs on a child that is stopped by --timeout after printing: the text searched is what the CHILD wrote - in
+        # memory and through log files alike - whatever else ends up in the kept logs
+        from boundaries import mined_texts
+        hang = os.path.join(work, "hang.py")
+        with open(hang, "w") as f:
+            f.write("#!" + PY + "\nimport sys,time\nsys.stdout.write('abc'); sys.stdout.flush()\n"
+                    "sys.stderr.write('warn'); sys.stderr.flush()\ntime.sleep(4)\n")
+        os.chmod(hang, 0o755)
+        searches = [("abc", False), ("warn", False), ("zzz", False), ("TIMED OUT", False), ("timeout", False), ("n\n", False),
+                    ("c\n", False), (r"after \d+s", True), (r"warn$", True), (r"^\[", True), ("killed", False), ("Timeout", False)]
+        searches += [(t.decode("latin-1"), False) for t in mined_texts(40)]
+        real_out, real_err = b"abc", b"warn"
+        import re as _re
+
+        def do_hang(job):
+            (srch, rx), mode = job
+            args = (["-r"] if rx else []) + ["-s", srch, "-t", "1", hang]
+            try:
+                return outputs.interesting(args, os.path.join(work, "hang-%d" % (abs(hash((srch, rx))) % 10 ** 8)) if mode else None)
+            except BaseException as exc:  # pylint: disable=broad-except
+                return "raised " + type(exc).__name__
+        hj = [(sr, m) for sr in searches for m in (False, True)]
+        with ThreadPoolExecutor(12) as ex:
+            hres = list(ex.map(do_hang, hj))
+        for ((srch, rx), mode), got in zip(hj, hres):
+            sb = srch.encode("latin-1", "replace")
+            want = any((_re.search(sb, d, _re.MULTILINE) is not None) if rx else (sb in d) for d in (real_out, real_err))
+            ck.count("outputs")
+            ck.nontrivial(("outputs-timeout", srch, rx, mode))
+            if got is not want:
+                ck.violation(f"outputs {'--regex ' if rx else ''}-s {srch!r} on a child that prints 'abc' / 'warn' and is stopped by "
+                             f"--timeout ({'log files' if mode else 'in memory'}): got {got}, the text "
+                             f"{'occurs' if want else 'does not occur'} in what the child wrote",
+                             {"module": "outputs", "search": srch, "regex": rx, "files": mode, "timeout": True})
         # the exit STATUS: a run ended by signal N is different from a run that exits with N, with 128+N (what a shell
         # would report) or with 256-N, and equal only to another run ended by signal N - for every terminating signal,
         # and exit codes around 0 / 127 / 128 / 255
